@@ -20,6 +20,7 @@ package sql
 import (
 	"context"
 	"flag"
+	"sync"
 	"time"
 
 	"seata.apache.org/seata-go/pkg/rm"
@@ -63,6 +64,12 @@ type AsyncWorker struct {
 	commitQueue  chan phaseTwoContext
 	resourceMgr  datasource.DataSourceManager
 	commitWorker *fanout.Fanout
+
+	// commits whose undo log could not be deleted yet. They wait here for the next tick instead of being
+	// pushed into commitQueue again: a worker blocked on the full queue, the run loop blocked on the busy
+	// workers and BranchCommit blocked on the full queue would wait for each other forever.
+	retryLock sync.Mutex
+	retryCtxs []phaseTwoContext
 
 	branchCommitTotal          prometheus.Counter
 	doBranchCommitFailureTotal prometheus.Counter
@@ -133,9 +140,26 @@ func (aw *AsyncWorker) run() {
 				aw.doBranchCommit(&phaseCtxs)
 			}
 		case <-ticker.C:
+			phaseCtxs = append(phaseCtxs, aw.takeRetries()...)
 			aw.doBranchCommit(&phaseCtxs)
 		}
 	}
+}
+
+// putBack keeps commits whose undo log is still there for the next tick
+func (aw *AsyncWorker) putBack(phaseCtxs ...phaseTwoContext) {
+	aw.rePutBackToQueue.Add(float64(len(phaseCtxs)))
+	aw.retryLock.Lock()
+	aw.retryCtxs = append(aw.retryCtxs, phaseCtxs...)
+	aw.retryLock.Unlock()
+}
+
+func (aw *AsyncWorker) takeRetries() []phaseTwoContext {
+	aw.retryLock.Lock()
+	defer aw.retryLock.Unlock()
+	retries := aw.retryCtxs
+	aw.retryCtxs = nil
+	return retries
 }
 
 func (aw *AsyncWorker) doBranchCommit(phaseCtxs *[]phaseTwoContext) {
@@ -170,44 +194,37 @@ func (aw *AsyncWorker) doBranchCommit(phaseCtxs *[]phaseTwoContext) {
 
 	if err := aw.commitWorker.Do(context.Background(), doBranchCommit); err != nil {
 		aw.doBranchCommitFailureTotal.Add(1)
-		log.Errorf("do branch commit err:%v,phaseCtxs=%v", err, phaseCtxs)
+		log.Errorf("do branch commit err:%v,phaseCtxs=%v", err, copyPhaseCtxs)
+		aw.putBack(copyPhaseCtxs...)
 	}
 }
 
 func (aw *AsyncWorker) dealWithGroupedContexts(resID string, phaseCtxs []phaseTwoContext) {
 	val, ok := aw.resourceMgr.GetCachedResources().Load(resID)
 	if !ok {
-		for i := range phaseCtxs {
-			aw.rePutBackToQueue.Add(1)
-			aw.commitQueue <- phaseCtxs[i]
-		}
+		aw.putBack(phaseCtxs...)
 		return
 	}
 
 	res := val.(*DBResource)
 	conn, err := res.db.Conn(context.Background())
 	if err != nil {
-		for i := range phaseCtxs {
-			aw.commitQueue <- phaseCtxs[i]
-		}
+		aw.putBack(phaseCtxs...)
+		return
 	}
 
 	defer conn.Close()
 
 	undoMgr, err := undo.GetUndoLogManager(res.dbType)
 	if err != nil {
-		for i := range phaseCtxs {
-			aw.rePutBackToQueue.Add(1)
-			aw.commitQueue <- phaseCtxs[i]
-		}
+		aw.putBack(phaseCtxs...)
 		return
 	}
 
 	for i := range phaseCtxs {
 		phaseCtx := phaseCtxs[i]
 		if err := undoMgr.BatchDeleteUndoLog([]string{phaseCtx.Xid}, []int64{phaseCtx.BranchID}, conn); err != nil {
-			aw.rePutBackToQueue.Add(1)
-			aw.commitQueue <- phaseCtx
+			aw.putBack(phaseCtx)
 		}
 	}
 }
